@@ -96,6 +96,20 @@ def r15_1(ctx, b, rc):
         'source bounds': any(l[0] == 'path' and l[1] == ('param', P_SRC) and l[2][-1:] == (('f', 'width'),) for l in lv) and any(l[0] == 'path' and l[1] == ('param', P_SRC) and l[2][-1:] == (('f', 'height'),) for l in lv),
         'destination bounds': any(l[0] == 'path' and l[1] == ('param', 1) and l[2][-1:] == (('f', 'width'),) for l in lv) and any(l[0] == 'path' and l[1] == ('param', 1) and l[2][-1:] == (('f', 'height'),) for l in lv),
     }
+    # for the two surfaces, depending on their size is not enough (the offset is limited by them too): the rectangle
+    # must have been intersected with (0, 0, width, height) of each
+    def clamped_by(owner):
+        for x in D2.visited:
+            if is_call(x, 'Box2D::<T, U>::intersection_unchecked', 'Box2D::<T, U>::intersection') and len(x[2]) == 2:
+                for a in x[2]:
+                    a = strip_all(a)
+                    if is_call(a, 'geom::intrect') and len(a[2]) == 4 and const_val(a[2][0]) == 0 and const_val(a[2][1]) == 0:
+                        w, h2 = strip_all(a[2][2]), strip_all(a[2][3])
+                        if w[0] == 'field' and w[2] == 'width' and strip_all(w[1]) in (('param', owner), ('deref', ('param', owner))) and h2[0] == 'field' and h2[2] == 'height' and strip_all(h2[1]) in (('param', owner), ('deref', ('param', owner))):
+                            return True
+        return False
+    has['source bounds'] = has['source bounds'] and clamped_by(P_SRC)
+    has['destination bounds'] = has['destination bounds'] and clamped_by(1)
     for nm, ok in has.items():
         ctx.check(ok, R, key + '|clamped by ' + nm, call_line(b, bi), 'copied rectangle depends on ' + nm, 'the copied rectangle does not depend on %s: the block is not clamped by it (out-of-bounds rows/columns)' % nm)
     gs = normalized_guards(ctx, b, bi)
@@ -146,6 +160,41 @@ def r15_2(ctx, b, rc, info):
         ok_ops = a0 == ('param', P_DST) and a1[0] == 'field' and a1[2] == 'min' and strip_all(a1[1]) == ('param', P_SRCRECT)
         ctx.check(ok_ops, R, key + '|offset operands', call_line(b, trs[0][0]), 'offset = dst - src_rect.min of the arguments as passed',
                   'the source-to-destination offset is %s: it must be the dst argument minus the min corner of the src_rect argument as passed in; taken from the rectangle after clamping to the source, a src_rect that starts outside the source lands shifted' % fmt(b, T))
+    # ... or component-wise, possibly limited to where a block can still touch the destination: component c is
+    # dst.c - src_rect.min.c (plain, wrapping or saturating), optionally clamped below by -(source size) and above by the
+    # destination size — offsets beyond those place nothing whatever their exact value, nearer ones are left alone
+    if comps is not None and is_call(T, 'Vector2D::<T, U>::new', 'euclid::vec2'):
+        for ci, (cname, dim) in enumerate((('x', 'width'), ('y', 'height'))):
+            c = strip_all(T[2][ci])
+            lo = hi = None
+            okc = True
+            for _ in range(3):
+                if c[0] == 'call' and isinstance(c[1], str) and c[1].split('::')[-1] in ('max', 'min') and len(c[2]) == 2:
+                    if c[1].split('::')[-1] == 'max':
+                        lo = strip_all(c[2][1])
+                    else:
+                        hi = strip_all(c[2][1])
+                    c = strip_all(c[2][0])
+                elif c[0] == 'call' and isinstance(c[1], str) and c[1].split('::')[-1] == 'clamp' and len(c[2]) == 3:
+                    lo, hi = strip_all(c[2][1]), strip_all(c[2][2])
+                    c = strip_all(c[2][0])
+            if c[0] == 'call' and isinstance(c[1], str) and c[1].split('::')[-1] in ('saturating_sub', 'wrapping_sub') and len(c[2]) == 2:
+                a0, a1 = strip_all(c[2][0]), strip_all(c[2][1])
+            elif c[0] == 'bin' and c[1] == 'Sub':
+                a0, a1 = strip_all(c[2]), strip_all(c[3])
+            else:
+                a0 = a1 = ('unknown',)
+            def is_dst(t):
+                return t[0] == 'field' and t[2] == cname and strip_all(t[1]) == ('param', P_DST)
+            def is_min(t):
+                return t[0] == 'field' and t[2] == cname and strip_all(t[1])[0] == 'field' and strip_all(t[1])[2] == 'min' and strip_all(strip_all(t[1])[1]) == ('param', P_SRCRECT)
+            okc = is_dst(a0) and is_min(a1)
+            if lo is not None:
+                okc = okc and poly(lo) == -Poly.leaf(('field', ('deref', ('param', P_SRC)), dim, 'raqote::draw_target::DrawTarget', None))
+            if hi is not None:
+                okc = okc and poly(hi) == Poly.leaf(('field', ('deref', ('param', 1)), dim, 'raqote::draw_target::DrawTarget', None))
+            ctx.check(okc, R, key + '|offset component ' + cname, call_line(b, trs[0][0]), 'offset.%s = dst.%s - src_rect.min.%s, limited to [-src.%s, self.%s] at most' % (cname, cname, cname, dim, dim),
+                      'the %s component of the source-to-destination offset is %s: it must be dst.%s - src_rect.min.%s of the arguments as passed, limited at most to [-src.%s, self.%s] (a tighter limit moves blocks that still overlap the destination)' % (cname, fmt(b, T[2][ci])[:200], cname, cname, dim, dim))
     D = Deps(an)
     lv = D.closure(T)
     ok_dst = ('param', P_DST) in lv
@@ -283,6 +332,244 @@ def r15_4(ctx):
                   '%s also accesses self.buf directly (%s): pixels are placed outside composite_surface' % (name, sorted(set(others))))
 
 
+# ---------------------------------------------------------------- R15.5: magnitude of the integer arithmetic
+class _Mag:
+    """Two-sided boundedness of integer terms: a value is (lb, ub) — whether it is known to be no smaller / no larger than
+    something of the magnitude of a surface dimension.  Points, vectors and rectangles are trees of such values.  The
+    arguments src_rect and dst are arbitrary i32s (neither side bounded); surface sizes and constants are bounded on both
+    sides.  A checked operation (+, -, unary -, *, Box2D::translate, Point - Point, size) on an operand that is not
+    bounded on both sides can overflow for some caller: that is what the rule reports."""
+    BOTH = (True, True)
+    NONE = (False, False)
+
+    def __init__(self, ctx, b, params_unbounded, guard_rects):
+        self.ctx = ctx
+        self.b = b
+        self.an = ctx.an(b)
+        self.unb = params_unbounded
+        self.guard_rects = guard_rects      # nosite(rect term) known non-empty at the evaluated site
+        self.hazards = {}
+        self.memo = {}
+        # explicit loop counters run from their initial value up to their bound
+        self.counters = {nosite(cl['var']): cl for cl in shared.counter_loops(self.an, b)}
+
+    @staticmethod
+    def leaves(v):
+        if isinstance(v, dict):
+            out = []
+            for x in v.values():
+                out += _Mag.leaves(x)
+            return out
+        return [v]
+
+    def all_bounded(self, *vs):
+        return all(l == self.BOTH for v in vs for l in self.leaves(v))
+
+    def hazard(self, t, what):
+        self.hazards.setdefault(nosite(t), (t, what))
+
+    def point(self, v):
+        return v if isinstance(v, dict) and 'x' in v else {'x': v if not isinstance(v, dict) else self.NONE, 'y': v if not isinstance(v, dict) else self.NONE}
+
+    def rect(self, v):
+        if isinstance(v, dict) and 'min' in v:
+            return v
+        p = v if not isinstance(v, dict) else self.NONE
+        return {'min': {'x': p, 'y': p}, 'max': {'x': p, 'y': p}}
+
+    def ev(self, t):
+        t = strip_all(t)
+        k = nosite(t)
+        if k in self.memo:
+            return self.memo[k]
+        self.memo[k] = self.NONE      # cycles (loop-carried values) are unbounded
+        if k in self.counters:
+            cl = self.counters[k]
+            a, c = self.ev(cl['init']), self.ev(cl['bound'])
+            v = (a[0], c[1]) if not isinstance(a, dict) and not isinstance(c, dict) else self.NONE
+            self.memo[k] = v
+            return v
+        v = self._ev(t)
+        self.memo[k] = v
+        return v
+
+    def _ev(self, t):
+        h = t[0]
+        if h == 'const':
+            return self.BOTH
+        if h == 'param':
+            return self.NONE if t[1] in self.unb else self.BOTH
+        if h == 'cast':
+            return self.ev(t[3])
+        if h == 'field':
+            if t[2] in ('width', 'height') and (t[3] or '').endswith('draw_target::DrawTarget'):
+                return self.BOTH
+            base = self.ev(t[1])
+            if t[4] == 'Some' and is_call(strip_all(t[1]), 'Iterator::next'):
+                return self.range_of(t)
+            if isinstance(base, dict):
+                if t[2] in base:
+                    return base[t[2]]
+                if t[2] in ('0', '1') and 'x' in base:
+                    return base['x' if t[2] == '0' else 'y']
+                return self.NONE if not self.all_bounded(base) else self.BOTH
+            return base
+        if h in ('bin', 'ovf'):
+            a, c = self.ev(t[2]), self.ev(t[3])
+            if t[1] in ('Add', 'Sub', 'Mul', 'AddWithOverflow', 'SubWithOverflow', 'MulWithOverflow'):
+                if not self.all_bounded(a, c):
+                    self.hazard(t, t[1])
+                return self.BOTH
+            if t[1] in ('Lt', 'Le', 'Gt', 'Ge', 'Eq', 'Ne'):
+                return self.BOTH
+            return self.NONE if not self.all_bounded(a, c) else self.BOTH
+        if h == 'un':
+            a = self.ev(t[2])
+            if t[1] == 'Neg' and not self.all_bounded(a):
+                self.hazard(t, 'Neg')
+            return self.BOTH if t[1] == 'Neg' else a
+        if h == 'agg':
+            fs = {n: self.ev(x) for n, x in t[4]}
+            if t[1] == 'tuple':
+                return fs
+            return fs
+        if h == 'call' and isinstance(t[1], str):
+            d = t[1]
+            last = d.split('::')[-1]
+            args = [self.ev(a) for a in t[2]]
+            if d.endswith('geom::intrect') and len(args) == 4:
+                return {'min': {'x': args[0], 'y': args[1]}, 'max': {'x': args[2], 'y': args[3]}}
+            if last in ('vec2', 'point2') or d.endswith('Vector2D::<T, U>::new') or d.endswith('Point2D::<T, U>::new'):
+                if len(args) == 2:
+                    return {'x': args[0], 'y': args[1]}
+            if last in ('to_vector', 'to_point', 'clone', 'into', 'from', 'to_i32', 'cast'):
+                return args[0] if args else self.NONE
+            if last in ('intersection_unchecked',) and len(args) == 2:
+                A, B2 = self.rect(args[0]), self.rect(args[1])
+                out = {'min': {}, 'max': {}}
+                for c in ('x', 'y'):
+                    a, b2 = A['min'][c], B2['min'][c]
+                    out['min'][c] = (a[0] or b2[0], a[1] and b2[1])        # max of the two
+                    a, b2 = A['max'][c], B2['max'][c]
+                    out['max'][c] = (a[0] and b2[0], a[1] or b2[1])        # min of the two
+                if nosite(t) in self.guard_rects:
+                    for c in ('x', 'y'):
+                        lo, hi = out['min'][c], out['max'][c]
+                        out['min'][c] = (lo[0], lo[1] or hi[1])
+                        out['max'][c] = (hi[0] or lo[0], hi[1])
+                return out
+            if last == 'translate' and len(args) == 2:
+                if not self.all_bounded(args[0], args[1]):
+                    self.hazard(t, 'Box2D::translate (adds the vector to both corners)')
+                return self.rect(self.BOTH)
+            if (d.endswith('ops::Sub::sub') or d.endswith('ops::Add::add')) and len(args) == 2:
+                if not self.all_bounded(args[0], args[1]):
+                    self.hazard(t, 'point/vector %s' % last)
+                return {'x': self.BOTH, 'y': self.BOTH} if any(isinstance(a, dict) for a in args) else self.BOTH
+            if d.endswith('ops::Neg::neg') and len(args) == 1:
+                if not self.all_bounded(args[0]):
+                    self.hazard(t, 'negation')
+                return args[0] if isinstance(args[0], dict) and self.all_bounded(args[0]) else ({'x': self.BOTH, 'y': self.BOTH} if isinstance(args[0], dict) else self.BOTH)
+            if last in ('size', 'width', 'height', 'area') and len(args) == 1 and isinstance(args[0], dict) and 'min' in args[0]:
+                if not self.all_bounded(args[0]):
+                    self.hazard(t, 'Box2D::%s (max - min)' % last)
+                return {'width': self.BOTH, 'height': self.BOTH} if last == 'size' else self.BOTH
+            if last in ('saturating_sub',) and len(args) == 2 and not isinstance(args[0], dict):
+                a, c = args
+                return (a[0] and c[1], a[1] and c[0])
+            if last in ('saturating_add',) and len(args) == 2 and not isinstance(args[0], dict):
+                a, c = args
+                return (a[0] and c[0], a[1] and c[1])
+            if last == 'max' and len(args) == 2 and not isinstance(args[0], dict):
+                a, c = args
+                return (a[0] or c[0], a[1] and c[1])
+            if last == 'min' and len(args) == 2 and not isinstance(args[0], dict):
+                a, c = args
+                return (a[0] and c[0], a[1] or c[1])
+            if last == 'clamp' and len(args) == 3 and not isinstance(args[0], dict):
+                return (args[1][0], args[2][1])
+            if last in ('is_empty', 'is_negative', 'contains', 'intersects'):
+                return self.BOTH
+            if last in ('as_ref', 'as_mut', 'index', 'index_mut', 'len', 'call', 'into_iter', 'next', 'deref', 'deref_mut'):
+                return self.BOTH
+            return self.NONE
+        if h in ('phi', 'rec'):
+            vs = [self.ev(x) for x in self.an.phi_terms(t)] if h == 'phi' else []
+            if vs and all(not isinstance(v, dict) for v in vs):
+                return (all(v[0] for v in vs), all(v[1] for v in vs))
+            return self.NONE
+        return self.NONE
+
+    def range_of(self, t):
+        D = Deps(self.an)
+        D.closure(strip_all(t[1])[2][0])
+        for x in D.visited:
+            if x[0] == 'agg' and x[2] and x[2].endswith('ops::Range'):
+                f = dict(x[4])
+                a, c = self.ev(f['start']), self.ev(f['end'])
+                if not isinstance(a, dict) and not isinstance(c, dict):
+                    return (a[0], c[1])
+        return self.NONE
+
+
+def r15_5(ctx):
+    """no integer overflow in composite_surface for any src_rect / dst: every checked integer operation it performs — its
+    own +, -, *, and the ones inside euclid's Point - Point, Box2D::translate, -Vector, size() — has operands bounded on
+    both sides by surface-sized quantities, whatever i32 values the caller passes (C07: "source rectangles or destinations
+    far outside either surface" are harmless; C15: nothing is placed when the block misses the destination)"""
+    R = 'R15.5'
+    b = ctx.body(CS, R)
+    an = ctx.an(b)
+    key = 'draw_target::DrawTarget::composite_surface'
+    # every operation is judged where it executes: with the rectangles known to be non-empty *there*
+    evaluators = {}
+    def at(bi):
+        gr = set()
+        for op, a, b2, si in normalized_guards(ctx, b, bi):
+            if op == '!true' and is_call(a, 'is_empty'):
+                gr.add(nosite(strip_all(a[2][0])))
+        k = frozenset(gr)
+        if k not in evaluators:
+            evaluators[k] = _Mag(ctx, b, {P_SRCRECT, P_DST}, gr)
+        return evaluators[k]
+    nterms = 0
+    for d in an.defs:
+        if d.kind == 'assign' and not d.partial and d.bb in an.cfg.reach:
+            at(d.bb).ev(an.def_term(d))
+            nterms += 1
+    for bi, dd, ct in calls_in(ctx, b):
+        at(bi).ev(ct)
+        nterms += 1
+    for si, t in b.terminators('switch'):
+        if si in an.cfg.reach:
+            at(si).ev(an.term_at(si, len(b.blocks[si]['st']), t['o']))
+    allh = {}
+    for e in evaluators.values():
+        for k, v in e.hazards.items():
+            allh.setdefault(k, v)
+    ctx.floor(R, 'terms of composite_surface evaluated for magnitude', nterms, 20)
+    if allh:
+        items = sorted(allh.values(), key=lambda p: len(str(p[0])))
+        t, what = items[0]
+        ctx.fail(R, key + '|arithmetic on unclamped arguments', b.loc(),
+                 'composite_surface computes %s (%s) on a value that comes from src_rect / dst without having been limited to surface-sized magnitudes: for some i32 arguments it overflows (a panic with overflow checks; a wrapped offset otherwise) although a block that far away should simply place nothing (%d such operations)'
+                 % (fmt(b, t)[:160], what, len(items)))
+    else:
+        ctx.ok(R, key + '|arithmetic on unclamped arguments', b.loc(), 'every checked operation has operands bounded by surface sizes')
+
+
+def r15_rows(ctx):
+    """R15.1/R15.2 as one rule (for properties that need the row copies to stay inside both buffers)"""
+    b = ctx.body(CS, 'R15.1')
+    rc = row_call(ctx, b)
+    if rc is None:
+        ctx.fail('R15.1', 'draw_target::DrawTarget::composite_surface|callback call', b.loc(), 'cannot find the f(src_row, dst_row) call (fail closed)')
+        return
+    info = r15_1(ctx, b, rc)
+    if info is not None:
+        r15_2(ctx, b, rc, info)
+
+
 def run(ctx):
     b = ctx.body(CS, 'R15')
     rc = row_call(ctx, b)
@@ -293,4 +580,4 @@ def run(ctx):
         if info is not None:
             r15_2(ctx, b, rc, info)
     import engine
-    engine.run_rules(ctx, [lambda c: r15_3(c, b), r15_4, dt.r03_6, dt.r03_1, dt.r03_10])
+    engine.run_rules(ctx, [lambda c: r15_3(c, b), r15_4, r15_5, dt.r03_6, dt.r03_1, dt.r03_10])
